@@ -498,7 +498,8 @@ def validate_frontmatter(
 
     try:
         parsed = yaml.safe_load(raw_frontmatter)
-    except yaml.YAMLError as e:
+    except (yaml.YAMLError, RecursionError) as e:
+        # Deeply nested flow collections exhaust the YAML parser's stack (RecursionError, not a YAMLError)
         errors.append(
             ValidationError(
                 code="E_FM_PARSE",
